@@ -8,6 +8,8 @@ stripping) and classifies what protects the call into the wrapped router:
   temporary      a guard expression without a variable name (destroyed at the end of its statement)
   none           no guard before the router is touched
   unknown        anything else (several guards, guard on another object, guard in a nested block, …)
+An operation whose whole body is a call `helper([&]{ … })` of a member `helper(F &&fn) { rwp::XLock g {m_resource}; return fn(); }`
+is read as that guard followed by the lambda's body.
 Fails closed: a function that cannot be found raises.
 """
 import os
@@ -142,16 +144,71 @@ def classify(body, use_re):
     return "unknown", "guard expression `%s`" % rest
 
 
+def match_brace(text, i):
+    d = 0
+    for j in range(i, len(text)):
+        if text[j] == "{":
+            d += 1
+        elif text[j] == "}":
+            d -= 1
+            if d == 0:
+                return j
+    return None
+
+
+HELPER_HEAD = re.compile(r"\b([A-Za-z_]\w*)\s*\(([^()]*)\)\s*(?:const\s*)?(?:noexcept\s*)?\{")
+
+
+def lock_helpers(src):
+    """member functions of the shape   R name(F &&fn) [const] { rwp::XLock g {m_resource}; [return] fn(); }
+    (the guard is the first statement and lives until the callable has returned and its result has been constructed)
+    -> {name: guard statement text}"""
+    res = {}
+    for m in HELPER_HEAD.finditer(src):
+        params = m.group(2).strip()
+        pm = re.search(r"([A-Za-z_]\w*)\s*$", params)
+        if not pm or "," in params:
+            continue
+        fn = pm.group(1)
+        ob = m.end() - 1
+        cb = match_brace(src, ob)
+        if cb is None:
+            continue
+        body = src[ob + 1:cb].strip()
+        call = r"(?:std\s*::\s*forward\s*<[^<>;]*>\s*\(\s*%s\s*\)|%s)\s*\(\s*\)" % (fn, fn)
+        hm = re.match(r"^(rwp\s*::\s*(?:ReadLock|WriteLock)\s+[A-Za-z_]\w*\s*[\{\(]\s*m_resource\s*[\}\)]\s*;)\s*(?:return\s+)?%s\s*;$" % call, body, re.S)
+        if hm:
+            res[m.group(1)] = hm.group(1)
+    return res
+
+
+def inline_helper(body, helpers):
+    """an operation whose whole body is `[return] helper([captures](params) [-> T] { BODY });` is read as `<helper's guard>; BODY`"""
+    b = body.strip()
+    m = re.match(r"^(?:return\s+)?([A-Za-z_]\w*)\s*\(\s*\[[^\]]*\]\s*(?:\([^()]*\)\s*)?(?:mutable\s*)?(?:->\s*[^{};]+?)?\{", b, re.S)
+    if not m or m.group(1) not in helpers:
+        return body
+    ob = m.end() - 1
+    cb = match_brace(b, ob)
+    if cb is None or not re.match(r"^\s*\)\s*;$", b[cb + 1:]):
+        return body
+    return helpers[m.group(1)] + "\n" + b[ob + 1:cb]
+
+
 def translate(repo, out_path):
     p = os.path.join(repo, "include/tulz/observer/routing/ConcurrentSubjectRouter.h")
     src = strip(open(p).read())
     table = []
+    helpers = lock_helpers(src)
     for name, sig, use in OPS:
         ms = list(re.finditer(sig, src))
         bodies = [b for b in (body_after(src, m.start()) for m in ms) if b is not None]
         if len(bodies) != 1:
             raise RuntimeError("ConcurrentSubjectRouter.h: expected exactly one definition of %s, found %d" % (name, len(bodies)))
-        kind, why = classify(bodies[0], use)
+        inl = inline_helper(bodies[0], helpers)
+        kind, why = classify(inl, use)
+        if inl is not bodies[0]:
+            why += " (through a locking helper)"
         table.append((name, kind, why))
     with open(out_path, "w") as f:
         f.write("import Tulz.Model.Crouter\n")
